@@ -118,6 +118,18 @@ def rewrites():
         R.append(("Error", "explicit default `not(%s)` on a field that would not be selected anyway" % kw,
                   ["struct S { a: u8, b: u16 }", "struct S { a: u8, #[error(not(%s))] b: u16 }" % kw, "struct S { #[error(not(%s))] a: u8, #[error(not(%s),)] b: u16 }" % (kw, kw)]))
         R.append(("Error", "explicit default `not(%s)` in a variant" % kw, ["enum E { A { a: u8, b: u16 }, B }", "enum E { A { a: u8, #[error(not(%s))] b: u16 }, B }" % kw]))
+    # argument lists whose tokens can be glued together: the same list loosely and tightly spelled
+    for d, a in (("Display", "display"), ("Debug", "debug")):
+        sp = ":?" if d == "Debug" else ""
+        for loose, tight, item in (
+                ('"{%s} {%s}", _0, *_1' % (sp, sp), '"{%s} {%s}",_0,*_1' % (sp, sp), "struct S<T>(T, &'static T);"),
+                ('"{%s} {%s} {%s}", a, -b, !c' % (sp, sp, sp), '"{%s} {%s} {%s}",a,-b,!c' % (sp, sp, sp), "struct S<T> { a: T, b: i8, c: bool }"),
+                ('"{%s} {%s}", _0, &_1' % (sp, sp), '"{%s} {%s}",_0,&_1' % (sp, sp), "struct S<T, U>(T, U);"),
+                ('"{%s} {%s}", f::<Option<&u8>, u8>(_0), _1' % (sp, sp), '"{%s} {%s}",f::<Option<&u8>,u8>(_0),_1' % (sp, sp), "struct S<T>(u8, T);"),
+                ('"{%s} {%s}", <u8 as Tr<Vec<::core::primitive::u8>, u8>>::f(_0), _1' % (sp, sp), '"{%s} {%s}",<u8 as Tr<Vec<::core::primitive::u8>,u8>>::f(_0),_1' % (sp, sp), "struct S<T>(u8, T);"),
+                ('"{%s} {%s}", (|a: &u8, b: u8| *a + b)(_0, 1), _1' % (sp, sp), '"{%s} {%s}",(|a:&u8,b:u8|*a+b)(_0,1),_1' % (sp, sp), "struct S<T>(u8, T);"),
+                ('"{%s} {x%s}", _0, x = *_1' % (sp, sp), '"{%s} {x%s}",_0,x=*_1' % (sp, sp), "struct S<T>(T, &'static T);")):
+            R.append((d, "argument list spelled loosely and tightly", ["#[%s(%s)] %s" % (a, loose, item), "#[%s(%s)] %s" % (a, tight, item)]))
     R.append(("From", "#[from] on every wanted variant vs skip on the others", ["enum E { #[from] A(u8), B(u16) }", "enum E { A(u8), #[from(skip)] B(u16) }", "enum E { A(u8), #[from(ignore)] B(u16) }"]))
     return R
 
@@ -190,7 +202,9 @@ def all_spellings():
     for gi, (d, desc, forms) in enumerate(R):
         extra = []
         for f in forms:
-            for v in trailing_comma_variants(f) + interleave_variants(f):
+            # (calls inside format arguments are the user's expressions, not lists of the attribute: no commas are added there)
+            tc = [] if desc == "argument list spelled loosely and tightly" else trailing_comma_variants(f)
+            for v in tc + interleave_variants(f):
                 if v not in forms and v not in extra:
                     extra.append(v)
         R[gi] = (d, desc, list(forms) + extra)
@@ -451,6 +465,33 @@ def part4(chk, thorough):
              placement="on the item, and before and after the own attributes of every variant and every field", per_item="one of the three (quick) / all three (thorough)")
 
 
+def part5(chk, thorough):
+    """Whitespace between tokens is no part of any spelling: the item written with the least whitespace the lexer allows (`_0,*_1`:
+    punctuation glued together wherever that makes no other token) and with a blank between all tokens must give the same outcome.
+    The two texts differ from the original in the `Spacing` (Joint / Alone) of punctuation only, which the engine verifies before
+    comparing (request key `respace`)."""
+    import c19
+    corpus = c19.corpus_requests(thorough)
+    reqs = [{"derive": q["derive"], "item": q["item"], "respace": tight} for q in corpus for tight in (True, False)]
+    res = svc(reqs)
+    n = skipped = 0
+    for q, r in zip(reqs, res):
+        if "respace_same" not in r:
+            skipped += 1
+            continue
+        n += 1
+        chk.count(states=1, transitions=1)
+        if r["respace_same"]:
+            chk.outcome("whitespace-ignored")
+            continue
+        chk.outcome("whitespace-changes-outcome")
+        o2 = r.get("respace_out", {})
+        chk.violation("whitespace between tokens changes the outcome (%s, %s): %s -> %s" % (q["derive"], "tight" if q["respace"] else "loose", r["k"], o2.get("k")),
+                      {"derive": q["derive"], "item": q["item"], "respelled": r.get("respace_item")},
+                      "original: %s | respelled: %s" % ((r.get("out") or r.get("msg") or "")[:600], (o2.get("out") or o2.get("msg") or "")[:600]))
+    chk.part("5_whitespace", corpus=len(corpus), compared=n, not_comparable=skipped, spellings=["least whitespace the lexer allows", "a blank between all tokens"])
+
+
 def run(chk, tier):
     thorough = tier == "thorough"
     # ---------------- Part 1: synonymous rewrites
@@ -524,6 +565,7 @@ def run(chk, tier):
                 chk.violation("silently accepted (rustc too): %s (%s)" % (c.meta["cls"], c.meta["d"]), c.meta["item"], "the program compiled")
     part3(chk, thorough)
     part4(chk, thorough)
+    part5(chk, thorough)
     chk.part("2_corruptions", corruptions=len(C), decided_by_rustc=len(need_rustc),
              classes=sorted({cls.split(" `")[0] for _, cls, _, _ in C})[:40])
     chk.sample({"corruption": C[3][2], "class": C[3][1], "verdict": "rejected"})
